@@ -428,7 +428,7 @@ End EstProofs.
 (* Part 3 — what is computed, over Coq's reals                        *)
 (* ================================================================== *)
 Require Import Reals Lra.
-Require Import BFL.C19_ROps.
+Require Import BFL.C19_ROps BFL.C19_Proofs.
 Local Open Scope R_scope.
 
 Ltac rops := cbn [T s0 s1 sadd ssub smul sdiv sopp sleb sltb sofZ ssqrt sexp sln scos ssin sacos satan2 spi stiny ROps] in *.
@@ -988,4 +988,83 @@ Proof.
   pose proof (proj1 (reachable_inv S lin circ ops)) as Hh. fold st in Hh. cbn [fst snd hb meth smw wmw emw].
   rewrite <- (set_size_window _ w (hb st) Hh) at 2.
   repeat split; [now apply set_size_window | now apply set_size_buf].
+Qed.
+
+(* ---------------- review round: moves, one stored estimate, constant coordinates ---------------- *)
+Lemma hist_move_target A (h : hist A) : fst (hist_move h) = h.
+Proof. destruct h; reflexivity. Qed.
+Lemma est_move_target S (st : est S) : fst (est_move S st) = st.
+Proof. destruct st as [m [w b] a1 a2 a3]; reflexivity. Qed.
+(* the moved-from object is outside the invariant: using it is out of scope *)
+Lemma est_moved_from S (st : est S) :
+  window (hb (snd (est_move S st))) = 0%nat /\ ~ hinv (hb (snd (est_move S st))).
+Proof. split; [reflexivity|]. intros [_ [H _]]. simpl in H. lia. Qed.
+
+Lemma atan2_range y x : in_range (atan2 y x).
+Proof.
+  destruct (Req_dec x 0) as [Hx|Hx]; [destruct (Req_dec y 0) as [Hy|Hy]|].
+  - subst. rewrite atan2_0_0. unfold in_range. pose proof PI_RGT_0. lra.
+  - apply (atan2_polar y x). now right.
+  - apply (atan2_polar y x). now left.
+Qed.
+
+(* one angle with a positive weight: its directional mean is the angle itself, modulo 2 PI *)
+Lemma single_angle_cong a w : 0 < w ->
+  cong2pi a (atan2 (rdot (map sin [a]) [w]) (rdot (map cos [a]) [w])).
+Proof.
+  intros Hw. cbn [map rdot]. rewrite !Rplus_0_r, (Rmult_comm (sin a)), (Rmult_comm (cos a)).
+  rewrite atan2_scale by exact Hw. apply atan2_sin_cos.
+Qed.
+
+(* circular rows of mean: in (-PI, PI] unless there is exactly one particle, in which case the particle's
+   own angle is returned, which is congruent modulo 2 PI to what the general formula gives *)
+Lemma mean_circular_on_circle lin circ ps lw r : (lin <= r < lin + circ)%nat ->
+  let x := nth r (mean ROps lin circ ps lw) 0 in
+  (length ps <> 1%nat -> in_range x) /\
+  (forall p l, ps = [p] -> lw = [l] ->
+     x = nth r p 0 /\
+     cong2pi x (atan2 (rdot (map sin (prow ROps r ps)) (map exp lw)) (rdot (map cos (prow ROps r ps)) (map exp lw)))).
+Proof.
+  intros Hr x. unfold x. rewrite (mean_circular lin circ ps lw r Hr). split.
+  - intros Hn. destruct (Nat.eqb_spec (length ps) 1); [contradiction|]. apply atan2_range.
+  - intros p l -> ->. cbn [length Nat.eqb nth]. split; [reflexivity|].
+    unfold prow. cbn [map]. apply single_angle_cong. apply exp_pos.
+Qed.
+
+(* a coordinate that is the same for every particle is returned unchanged (normalised weights) *)
+Lemma mean_linear_const lin circ ps lw r c : (r < lin)%nat -> length lw = length ps ->
+  rsum (map exp lw) = 1 -> Forall (fun p => nth r p 0 = c) ps ->
+  nth r (mean ROps lin circ ps lw) 0 = c.
+Proof.
+  intros Hr Hl Hs Hc.
+  assert (H : c <= nth r (mean ROps lin circ ps lw) 0 <= c).
+  { apply mean_linear_between; try assumption.
+    apply Forall_forall. intros p Hp. rewrite (proj1 (Forall_forall _ ps) Hc p Hp). lra. }
+  lra.
+Qed.
+
+(* windowed circular output: in (-PI, PI] when at least two estimates are stored; with exactly one stored
+   estimate it is that estimate's angle (congruent to its directional mean, not wrapped) *)
+Lemma windowed_circular_on_circle lin circ (ops : list (op ROps)) (o : op ROps) v e :
+  let st := run ROps lin circ (est_init ROps) ops in
+  match o with OExtract2 _ _ | OExtract5 _ _ _ _ _ => True | _ => False end ->
+  meth_win (meth st) = Some v -> pushed ROps lin circ st o = Some e ->
+  let r := step ROps lin circ st o in
+  let n := length (buf (hb (fst r))) in
+  forall k, (lin <= k < lin + circ)%nat ->
+    (n <> 1%nat -> in_range (nth k (snd (snd r)) 0)) /\
+    (n = 1%nat -> nth k (snd (snd r)) 0 = nth k e 0 /\
+                  cong2pi (nth k (snd (snd r)) 0)
+                          (atan2 (rdot (map sin [nth k e 0]) [1]) (rdot (map cos [nth k e 0]) [1]))).
+Proof.
+  intros st Ho Hv He r n k Hk.
+  destruct (extract_windowed_rows lin circ ops o v e Ho Hv He) as (_ & HH & _ & _ & _ & _ & _ & Hc).
+  fold st in HH, Hc. fold r in HH, Hc. fold n in Hc. rewrite (Hc k Hk). split.
+  - intros Hn. destruct (Nat.eqb_spec n 1); [contradiction|]. apply atan2_range.
+  - intros Hn. rewrite Hn. cbn [Nat.eqb].
+    assert (E : nth 0 (buf (hb (fst r))) [] = e).
+    { rewrite HH. destruct (window (hb st)) eqn:Ew.
+      - exfalso. pose proof (proj1 (reachable_inv ROps lin circ ops)) as [_ [Hw _]]. fold st in Hw. lia.
+      - reflexivity. }
+    rewrite E. split; [reflexivity|]. apply single_angle_cong. lra.
 Qed.
